@@ -190,6 +190,25 @@ CORPUS = [
      [((5.5, 0, 0), 'm1_-1.0'), ((6.5, 0, 0), 'm2_-7.8'),
       ((-0.5, 0, 0), 'm1_-1.0'), ((0.5, 0, 0), 'm2_-7.8'), ((0.3, 5, 0), 'm0')],
      {'m1_-1.0', 'm2_-7.8'}),
+    # densities of one material that agree to six significant digits and differ
+    # beyond, at level 0 and in a filling universe (seeded change C09_C)
+    ('near-twin-densities', '''corpus near twins
+1 1 -10.41234 -1 imp:n=1
+2 1 -10.41235 1 -2 imp:n=1
+3 0 2 -3 fill=1 imp:n=1
+4 0 3 imp:n=0
+5 2 6.408751e-2 -4 u=1 imp:n=1
+6 2 6.408752e-2 4 u=1 imp:n=1
+
+1 so 1
+2 so 2
+3 so 5
+4 px 0
+
+''' + MATS, [],
+     [((0.2, 0, 0), 'm1_-10.41234'), ((1.5, 0, 0), 'm1_-10.41235'),
+      ((-3, 0, 0), 'm2_6.408751e-2'), ((3, 0, 0), 'm2_6.408752e-2')],
+     {'m1_-10.41234', 'm1_-10.41235', 'm2_6.408751e-2', 'm2_6.408752e-2'}),
     # the two spellings repaired in /repo 6d1467b
     ('repaired-spellings', '''corpus repaired
 1 1 -1.0 -1 imp:n=1
